@@ -4,6 +4,7 @@ import (
 	"fmt"
 	"reflect"
 	"sort"
+	"sync/atomic"
 
 	at "github.com/DanielSvub/anytype"
 
@@ -324,7 +325,51 @@ func (r *Real) expectType(h model.Heap, v model.Val) at.Type {
 // Malformed tree-form strings: TypeOfTF must be Undefined without panic, GetTF must panic.
 var malformed = []string{"", ".", "#", "..", "##", ".#", "#.", "a", "0", "x.y", ".a.", ".a#", "#0.", "#0#", "#x", "#", "# 0", "#0x", ".a..b", ".a.#0", "#0##1", "#-", "#1e3", "#99999999999999999999999", "#18446744073709551616", "#18446744073709551617", "#18446744073709551616.a", "#36893488147419103232#0"}
 
+var fixedTreeDone int32
+
+// fixedTreeTF: corruptions of resolvable paths on a tree that also has fields with the empty key (the corrupted
+// path must not fall back to them). Run once per process.
+func fixedTreeTF() *Mismatch {
+	if !atomic.CompareAndSwapInt32(&fixedTreeDone, 0, 1) {
+		return nil
+	}
+	inner := at.NewObject("", 2, "b", 3)
+	l := at.NewList(at.NewObject("", 4, "k", 5), at.NewList(6))
+	root := at.NewObject("", 1, "a", inner, "l", l)
+	lroot := at.NewList(root, l)
+	for _, c := range []struct {
+		name string
+		tof  func(string) at.Type
+		get  func(string) any
+		ps   []string
+	}{
+		{"object", root.TypeOfTF, root.GetTF, []string{".", "..", ".a.", ".a..", ".l#0.", ".l#", ".l#0..", "..a", ".a.b.", ".#", ".a#", ".l.#0"}},
+		{"list", lroot.TypeOfTF, lroot.GetTF, []string{"#0.", "#0..", "#0.a.", "#0.l#0.", "#", "#0#", "#1#0.", "#0.l#1#0#"}},
+	} {
+		for _, p := range c.ps {
+			var t at.Type
+			if e := safe(func() { t = c.tof(p) }); e != nil {
+				return mis("fixed tree with empty-string keys (%s root): TypeOfTF(%q) panicked: %v", c.name, p, e)
+			}
+			var v any
+			gp := safe(func() { v = c.get(p) })
+			if t != at.TypeUndefined || gp == nil {
+				return mis("fixed tree with empty-string keys (%s root): the corrupted path %q resolves (TypeOfTF = %d, GetTF = %#v); it must be Undefined / panic", c.name, p, t, v)
+			}
+		}
+	}
+	if root.GetTF(".a.b") != 3 || lroot.GetTF("#0.l#0.k") != 5 || root.TypeOfTF(".l#1#0") != at.TypeInt {
+		return mis("fixed tree: resolvable paths no longer resolve")
+	}
+	return nil
+}
+
 func (r *Real) observeTF(st *model.State, cfg ObsCfg) *Mismatch {
+	if cfg.Malform {
+		if m := fixedTreeTF(); m != nil {
+			return m
+		}
+	}
 	h := st.Heap
 	table := map[string]model.Val{}
 	for _, e := range st.Obs.Tf {
